@@ -13,7 +13,7 @@ from .lib import deep_copy
 class Contract:
     def __init__(self, qual, params=None, requires=(), ensures=(), raises=None, loops=None, cuts=None,
                  mode='inline', result=None, modifies=(), cases=None, top=None, note='', old=(), setup=None,
-                 allow_raises=None, ghost=None, pure=False, use=(), let=None, may_raise=None, use_entry=(), opaque=()):
+                 allow_raises=None, ghost=None, pure=False, use=(), let=None, may_raise=None, use_entry=(), opaque=(), merge=True):
         self.qual = qual
         self.params = dict(params or {})
         self.requires = [requires] if isinstance(requires, str) else list(requires)
@@ -32,6 +32,7 @@ class Contract:
         self.ghost = ghost or {}
         self.pure = pure
         self.use_entry = [use_entry] if isinstance(use_entry, str) else list(use_entry)   # lemma instances assumed at entry
+        self.merge = merge                    # merge states at if-joins (False: always fork; more, simpler obligations)
         self.opaque = tuple(opaque)            # spec functions kept opaque (not unfolded) in this function's obligations
         self.may_raise = dict(may_raise or {})   # {'Exc': cond}: may (not must) raise when cond held at entry
         self.let = dict(let or {})            # name -> expression over entry values, usable in ensures/raises
@@ -167,6 +168,8 @@ def verify_function(ip, con, fuel_note=None):
     saved = (ip.loop_specs, ip.cuts, ip.cur_func, ip.cur_inputs)
     saved_opaque = ip.cur_opaque
     ip.cur_opaque = con.opaque
+    saved_merge = ip.merge_states_enabled
+    ip.merge_states_enabled = con.merge
     ip.loop_specs = dict(ip.loop_specs)
     for ordinal, spec in con.loops.items():
         if ordinal < 1 or ordinal > len(loops):
@@ -223,6 +226,7 @@ def verify_function(ip, con, fuel_note=None):
     finally:
         ip.loop_specs, ip.cuts, ip.cur_func, ip.cur_inputs = saved
         ip.cur_opaque = saved_opaque
+        ip.merge_states_enabled = saved_merge
     return summary
 
 
